@@ -737,6 +737,11 @@ func c10GoLeaves() []named {
 		add(fmt.Sprintf("float32(%g)", float32(f)), float32(f))
 	}
 	add("string", "héllo")
+	// text that is not valid UTF-8 (Latin-1, a cut multi-byte sequence, lone continuation bytes,
+	// a surrogate half, NUL): stored byte for byte or refused
+	for _, x := range []string{"caf\xe9.txt", "\x80", "a\xc3", "\xed\xa0\x80", "ok\x00nul", "\xff\xfe\xfd", ""} {
+		add(fmt.Sprintf("string(%q)", x), x)
+	}
 	add("bool", true)
 	add("[]byte", []byte{1, 2, 3})
 	add("cid", ref.CID([]byte("c")))
